@@ -2,7 +2,7 @@
    removals.  Model: token stream of the lexer model -> the parser's cut
    bookkeeping (CutM.cut_texts) -> emitted text.  Spec side: CutSpec. *)
 From Verif Require Import Bytes Facts_lexer Facts_unicode LexBase LexCodeM LexerM LexTables LexPos CutM CutSpec
-  LexBase_proofs LexCode_proofs Lexer_proofs LexTop_proofs Cut_proofs.
+  LexBase_proofs LexTile_proofs LexCode_proofs Lexer_proofs LexTop_proofs Cut_proofs.
 Open Scope N_scope.
 
 (* Full statement.  cut_only_contentfree: every byte of text that is not
@@ -31,9 +31,17 @@ Theorem C15_cut_only_blank_partial :
 Proof. exact cut_texts_ok. Qed.
 Print Assumptions C15_cut_only_blank_partial.
 
-(* proved for the lexer: the tokens are sent in source order and do not
-   overlap (nothing is duplicated); that nothing is lost between them outside
-   the delimited blocks (text_partition) is checked at run time, not proved *)
+(* proved for the lexer, for every byte string, format and Unicode table:
+   text_partition - on a successful scan the texts, the comments, the shebang
+   line and the blocks from an opening delimiter to its closing delimiter tile
+   the source from its first to its last byte (nothing lost, nothing
+   duplicated) *)
+Theorem C15_text_partition_partial : text_partition.
+Proof. exact text_partition_holds. Qed.
+Print Assumptions C15_text_partition_partial.
+
+(* and in every case (also when the lexer stops on an error) the tokens are
+   sent in source order and do not overlap *)
 Theorem C15_tokens_disjoint_partial :
   forall (U : unitab) (noParseShow : bool) (format : N) (src : bytes) toks err,
     scan_template U noParseShow format src = Done toks err -> toks_sorted 0 toks.
